@@ -196,7 +196,7 @@ func oracleCal(d klog.Date, o *Outcome, in map[string]any) {
 			if representable {
 				fail(name+" period panics: "+pm, "panic")
 			} else {
-				addF(o, Finding{Kind: "D", What: fmt.Sprintf("%s: %s period panics (period reaches outside 0000-9999): %s", a, name, pm), Impl: "panic", Input: in, Signature: sig})
+				addF(o, Finding{Kind: "D", What: fmt.Sprintf("%s: %s period panics (period reaches outside 0000-9999): %s", a, name, pm), Impl: "panic", Input: in, Signature: sigOr(sig, pm)})
 			}
 			return
 		}
@@ -219,7 +219,7 @@ func oracleCal(d klog.Date, o *Outcome, in map[string]any) {
 			// the previous period is not representable when it reaches before 0000-01-01
 			lower := name == "week" && !func() bool { s, ok := since.plus(-7); _ = s; return ok }()
 			if !rep || lower || y == 0 {
-				addF(o, Finding{Kind: "D", What: fmt.Sprintf("%s: previous %s panics at the lower end of the calendar: %s", a, name, pm), Impl: "panic", Input: in, Signature: "panic:unrepresentable-date"})
+				addF(o, Finding{Kind: "D", What: fmt.Sprintf("%s: previous %s panics at the lower end of the calendar: %s", a, name, pm), Impl: "panic", Input: in, Signature: crashSignature("C15", pm, nil)})
 			} else {
 				fail("previous "+name+" panics: "+pm, "panic")
 			}
@@ -349,7 +349,7 @@ func runC15(env *Env, data map[string]any) *Outcome {
 	for _, p := range pats {
 		evals++
 		in := map[string]any{"year": year, "pattern": p, "only_m": 0}
-		var impl string
+		var impl, patPanic string
 		var per period.Period
 		if pm := safely(func() {
 			pp, err := period.NewPeriodFromPatternString(p)
@@ -361,6 +361,7 @@ func runC15(env *Env, data map[string]any) *Outcome {
 			}
 		}); pm != "" {
 			impl = "panic"
+			patPanic = pm
 		}
 		model := env.Drv.Ask("pattern", hx(p))
 		if impl != model {
@@ -369,7 +370,7 @@ func runC15(env *Env, data map[string]any) *Outcome {
 		want, rep := oraclePattern(p)
 		switch {
 		case impl == "panic" && !rep:
-			addF(o, Finding{Kind: "D", What: "period pattern " + p + " panics (the week reaches outside 0000-9999)", Impl: impl, Input: in, Signature: "panic:unrepresentable-date"})
+			addF(o, Finding{Kind: "D", What: "period pattern " + p + " panics (the week reaches outside 0000-9999)", Impl: impl, Input: in, Signature: crashSignature("C15", patPanic, nil)})
 		case impl == "panic":
 			addF(o, Finding{Kind: "D", What: "period pattern " + p + " panics", Impl: impl, Input: in})
 		case want == "" && per != nil:
@@ -482,4 +483,12 @@ func oraclePattern(p string) (string, bool) {
 		return fmt.Sprintf("%s..%s", mon, sun), ok1 && ok2
 	}
 	return "", true
+}
+
+// sigOr: the call-site signature of a panic where the caller expects one (sig != "")
+func sigOr(sig, pm string) string {
+	if sig == "" {
+		return ""
+	}
+	return crashSignature("C15", pm, nil)
 }
